@@ -127,6 +127,32 @@ def layout_of(t, pname, depth=0):
     return {'?'}
 
 
+def _layout_by_enumeration(term, pname, want):
+    """(True, number of points) when for every rank 2..4 and every admissible assignment of the three axis parameters the operand is the parameter with (want[0], want[1])
+    at its last two axes; (False, point, what arrives) for the first point where it is not; None when some point cannot be folded."""
+    from ..inteval import permutation_of
+    import itertools
+    n_pts = 0
+    for nd in (2, 3, 4):
+        reps = [list(range(-nd, nd))] * 3
+        for sd, kd, td in itertools.product(*reps):
+            if len({sd % nd, td % nd}) < 2:
+                continue
+            if pname == 'mask' and len({sd % nd, kd % nd, td % nd}) < 3 and len({kd % nd, td % nd}) < 2:
+                continue
+            if pname == 'mask' and kd % nd == td % nd:
+                continue
+            env = {'sensor_dim': sd, 'source_dim': kd, 'time_dim': td, ('ndim', 'observation'): nd, ('ndim', 'mask'): nd}
+            p = permutation_of(term, pname, env)
+            if p is None:
+                return None
+            n_pts += 1
+            w0, w1 = env[want[0]] % nd, env[want[1]] % nd
+            if (p[-2], p[-1]) != (w0, w1):
+                return False, f'rank {nd}, sensor_dim={sd}, source_dim={kd}, time_dim={td}', (p[-2] - nd, p[-1] - nd)
+    return (True, n_pts) if n_pts else None
+
+
 def check_layout(run, A, fn, sites):
     """sensor_dim / source_dim / time_dim are promises to the caller: the contraction letters only mean (sensor, frame) and (source, frame) after the observation and a mask
     with a source axis have been brought to (..., sensor_dim, time_dim) and (..., source_dim, time_dim)."""
@@ -152,7 +178,17 @@ def check_layout(run, A, fn, sites):
             else:
                 continue
             n += 1
-            if got == {want}:
+            enumerated = None
+            if '?' in got:
+                # not one of the recognised spellings: fold the axis arithmetic for every rank 2..4 and every admissible (sensor_dim, source_dim, time_dim) (pbv/inteval.py)
+                enumerated = _layout_by_enumeration(obs_side if pname == 'observation' else raw, pname, want)
+            if enumerated is not None and enumerated[0] is True:
+                run.ok('R-AXIS', f'PSD {st["sub"]!r}: {pname} operand is in layout (..., {want[0]}, {want[1]})', s.loc, f'axis arithmetic folded on {enumerated[1]} points (rank 2..4)')
+            elif enumerated is not None and enumerated[0] is False:
+                run.violation('R-AXIS', f'PSD {st["sub"]!r}: {pname} operand is in layout (..., {want[0]}, {want[1]})', s.loc,
+                              f'operand {i} ({letters!r}): for {enumerated[1]} the axes that arrive at the last two positions are {enumerated[2]} of `{pname}`, not '
+                              f'({want[0]}, {want[1]}): the letters pair the wrong axes', construct=f'R-AXIS::{Q}::layout::{pname}')
+            elif got == {want}:
                 run.ok('R-AXIS', f'PSD {st["sub"]!r}: {pname} operand is in layout (..., {want[0]}, {want[1]})', s.loc, '')
             elif '?' in got:
                 run.unresolved('R-AXIS', f'PSD {st["sub"]!r}: {pname} operand is in layout (..., {want[0]}, {want[1]})', s.loc, f'the way from `{pname}` to operand {i} is not recognised')
@@ -273,7 +309,9 @@ def check(run):
     run.check(okf, 'R-AXIS', 'PSD: mask-free estimate divides by the number of frames', fn.loc(), '', 'psd /= observation.shape[-1] (frames of the transposed observation) not found',
               construct=f'R-AXIS::{Q}::frame-count')
     # source axis roll
-    rolls = [e for e in g.events if e.kind == 'call' and is_call_to(e.term, 'numpy.rollaxis', 'numpy.moveaxis')]
+    # (moves of the PSD of the source-mask branch: the operand is computed from the mask; moves that bring the observation / mask into the working layout are judged by *layout*)
+    rolls = [e for e in g.events if e.kind == 'call' and is_call_to(e.term, 'numpy.rollaxis', 'numpy.moveaxis') and call_arg(e.term, 0) is not None
+             and derives(call_arg(e.term, 0), 'mask') and derives(call_arg(e.term, 0), 'observation')]
     swaps = [e for e in g.events if e.kind == 'call' and is_call_to(e.term, 'numpy.swapaxes', 'method:swapaxes') and any(axis_param(c.args[1]) == 'source_dim' for c, p in e.guards if c.op == 'cmp')]
     run.check(not swaps, 'R-ROLE', 'PSD: the source axis is MOVED to the requested position, the other leading axes keep their order', fn.loc(), '',
               'the source axis is exchanged (swapaxes) with a leading axis: for more than one leading axis the leading axes are permuted', construct=f'R-ROLE::{Q}::source-axis-swapped')
